@@ -67,9 +67,25 @@ def run(ctx):
         ctx.holds('R3', f.loc, f.qualname, f'no store to a class attribute or module global in the {len(reach)} functions below concat (Node.NextID excepted)')
     contents, sepn = f.params[1:3]
     body = docstring_free(f.body)
-    loops = [n for n in body if isinstance(n, ast.For) and src(n.iter) == contents]
+    loops = [n for n in walk_local(f.node) if isinstance(n, ast.For) and src(n.iter) == contents]
     ctx.expect_count('R1', 'fragment loop', len(loops), 1)
     lp = loops[0]
+    # the statements that run before the loop (wherever the loop sits: at top level or inside the last branch of a guard)
+    before_lp = []
+
+    def collect(stmts):
+        for st_ in stmts:
+            if st_ is lp:
+                return True
+            if any(n_ is lp for n_ in ast.walk(st_)):
+                for field in ('body', 'orelse', 'finalbody'):
+                    v_ = getattr(st_, field, None)
+                    if isinstance(v_, list) and v_ and isinstance(v_[0], ast.stmt) and any(n_ is lp for x_ in v_ for n_ in ast.walk(x_)):
+                        return collect(v_)
+                return True
+            before_lp.append(st_)
+        return False
+    collect(body)
     if not isinstance(lp.target, ast.Name):
         raise AnalysisError(f'{f.loc}: the fragment loop has no simple loop variable')
     L = lp.lineno
@@ -79,7 +95,7 @@ def run(ctx):
     ok_create_fn = r is not None and r.kind == 'def' and r.value.qualname == f'{N.GENERIC}.create'
     # initial values of the names bound before the loop (whatever the path)
     init = {}
-    for st in body[:body.index(lp)]:
+    for st in before_lp:
         for n in ast.walk(st):
             if isinstance(n, ast.Assign) and isinstance(n.targets[0], ast.Name):
                 init.setdefault(n.targets[0].id, set()).add(src(n.value))
@@ -107,7 +123,7 @@ def run(ctx):
         def delegates():
             # a call, in the loop body, of a method of an object of a class the pinned tree does not know (built before the loop)
             objs = {}
-            for st_ in body[:body.index(lp)]:
+            for st_ in before_lp:
                 for n_ in ast.walk(st_):
                     if isinstance(n_, ast.Assign) and len(n_.targets) == 1 and isinstance(n_.targets[0], ast.Name) and isinstance(n_.value, ast.Call):
                         c_ = F.constructed_class(ctx, n_.value, f)
